@@ -176,11 +176,9 @@ def list_targets(coredata: cdata.CoreData, builddata: build.Build, backend: back
         if not isinstance(target, build.Target):
             raise RuntimeError('The target object in `builddata.get_targets()` is not of type `build.Target`. Please file a bug with this error message.')
 
-        if isinstance(target, build.RunTarget):
-            outdir = get_target_dir(builddata.environment.coredata, target.get_builddir())
-        else:
-            # Ask the backend: it knows about build_subdir in the flat layout too
-            outdir = backend.get_target_dir(target)
+        # Ask the backend: it knows about build_subdir in the flat layout, and
+        # that run and alias targets are top-level names in every layout
+        outdir = backend.get_target_dir(target)
         t = {
             'name': target.get_basename(),
             'id': idname,
